@@ -323,6 +323,16 @@ reg(
   "RGB, lighting, textures, flex and splats are not judged; silhouette pixels skipped and counted; three KNOWN-FINDINGs (orthographic cameras, hfield base/sides, mesh bounds) labelled per pixel.",
 )
 
+reg(
+  "C32",
+  "property-based testing (Hypothesis + enumeration of all flag singletons and pairs): MuJoCo C differential under the same flags plus a bitwise flag-locality metamorphic relation",
+  "All 19 singletons and 171 pairs of supported disable/enable flags on 3-5 base models (Euler, implicitfast, implicit) chosen so that every flag changes MuJoCo's own output, then random subsets of every density on random rich "
+  "models (plane contacts, parent-child overlaps, a flat mesh-on-box MULTICCD pair, equalities, frictionloss, limits, springs, dampers, gravcomp, clamped controls, sub-2dt solrefs, sensors of every stage, energy, inverse dynamics): "
+  "forward/inverse/step compared stage by stage with MuJoCo under the same flags, the flag's effect on the contact list checked, and toggling one flag must leave every field group not downstream of it bit-identical.",
+  "nworld = 1, no RK4, no sleep/nativeccd flags; solver-dependent quantities judged only when both engines report the same contacts and converge; implicit next states judged on hinge/slide-only models (C08 finding); "
+  "{damper, invdiscrete} with Euler not judged for qfrc_inverse (MuJoCo is self-inconsistent there).",
+)
+
 NOT_APPLICABLE = {}
 
 
